@@ -63,6 +63,7 @@ type c12Cfg struct {
 	entity   bool
 	endpoint int
 	artifact bool // the AuthnRequest asks for its response over HTTP-Artifact (what samlsp does with UseArtifactResponse)
+	idpFmts  int  // NameIDFormat entries the IdP's metadata lists: none (0), transient only (1), emailAddress + persistent (2), unspecified (3) - what the SP asks for is what it was configured to ask for
 	zone     int  // the library clock returns the same instant in UTC (0), in -08:00 (1), in +05:30 (2): saml.TimeNow = time.Now on such a machine
 }
 
@@ -74,6 +75,9 @@ func (c c12Cfg) String() string {
 	s := fmt.Sprintf("sign=%v/nid=%d/force=%d/ctx=%v/entity=%v/ep=%s", c.sign, c.nidFmt, c.force, c.reqCtx, c.entity, c12Endpoints[c.endpoint].name)
 	if c.artifact {
 		s += "/response-binding=artifact"
+	}
+	if c.idpFmts != 0 {
+		s += "/idp-lists-nameid-formats=" + []string{"none", "transient", "email+persistent", "unspecified"}[c.idpFmts]
 	}
 	if c.zone != 0 {
 		s += "/clock-zone=" + []string{"UTC", "-08:00", "+05:30"}[c.zone]
@@ -116,6 +120,15 @@ func c12SP(cf c12Cfg) (*saml.ServiceProvider, string, string) {
 			}
 			for j := range d.SingleSignOnServices {
 				d.SingleSignOnServices[j].ResponseLocation = c12RespLoc
+			}
+		}
+	}
+	if cf.idpFmts != 0 {
+		fm := [][]string{nil, {"urn:oasis:names:tc:SAML:2.0:nameid-format:transient"}, {"urn:oasis:names:tc:SAML:1.1:nameid-format:emailAddress", "urn:oasis:names:tc:SAML:2.0:nameid-format:persistent"}, {"urn:oasis:names:tc:SAML:1.1:nameid-format:unspecified"}}[cf.idpFmts]
+		for i := range sp.IDPMetadata.IDPSSODescriptors {
+			sp.IDPMetadata.IDPSSODescriptors[i].NameIDFormats = nil
+			for _, f := range fm {
+				sp.IDPMetadata.IDPSSODescriptors[i].NameIDFormats = append(sp.IDPMetadata.IDPSSODescriptors[i].NameIDFormats, saml.NameIDFormat(f))
 			}
 		}
 	}
@@ -226,13 +239,13 @@ func runC12(c *core.Ctx) {
 
 	c.Group("configuration-axes")
 	probes := []string{"", "rs", "a b&c=d#e+f%", "é\U0001F600", strings.Repeat("x", 81), "\"'<>"}
-	fields := []lattice.Field{{Name: "sign", N: 2}, {Name: "nid", N: len(c12NIDFormats)}, {Name: "force", N: 3}, {Name: "ctx", N: 2}, {Name: "entity", N: 2}, {Name: "ep", N: len(c12Endpoints)}, {Name: "respbinding", N: 2}, {Name: "clockzone", N: 3}}
+	fields := []lattice.Field{{Name: "sign", N: 2}, {Name: "nid", N: len(c12NIDFormats)}, {Name: "force", N: 3}, {Name: "ctx", N: 2}, {Name: "entity", N: 2}, {Name: "ep", N: len(c12Endpoints)}, {Name: "respbinding", N: 2}, {Name: "clockzone", N: 3}, {Name: "idp-nameid-formats", N: 4}}
 	k := 2
 	if c.Thorough() {
 		k = -1
 	}
 	lattice.Enumerate(fields, k, func(idx []int, dev int) {
-		cf := c12Cfg{sign: idx[0] == 1, nidFmt: idx[1], force: idx[2], reqCtx: idx[3] == 1, entity: idx[4] == 0, endpoint: idx[5], artifact: idx[6] == 1, zone: idx[7]}
+		cf := c12Cfg{sign: idx[0] == 1, nidFmt: idx[1], force: idx[2], reqCtx: idx[3] == 1, entity: idx[4] == 0, endpoint: idx[5], artifact: idx[6] == 1, zone: idx[7], idpFmts: idx[8]}
 		for _, msg := range c12Messages {
 			for pi, pr := range probes {
 				msg, pr, pi := msg, pr, pi
@@ -247,7 +260,28 @@ func runC12(c *core.Ctx) {
 
 	c12IDs(c)
 	c12Held(c, getSP)
+
+	// the ID of the LogoutRequest being answered, in shapes other than "id-<hex>": it comes back in InResponseTo exactly as given
+	c.Group("logout-response-request-ids")
+	for gi, gid := range []string{"4f2c9a60-1d2e-4b7a-9c3d-5e6f708192a3", "-leading-dash", ".leading-dot", "9", "_underscore", "ID with blanks", "Üml:aut", "a/b?c=d&e", strings.Repeat("9", 200)} {
+		for _, msg := range []string{"logoutresp-redirect", "logoutresp-post"} {
+			for _, sign := range []bool{false, true} {
+				gid, msg, sign := gid, msg, sign
+				cf := c12Cfg{sign: sign, entity: true}
+				key := fmt.Sprintf("logout-response-id/%d/%s/sign=%v", gi, msg, sign)
+				c.Case(key, func(t *core.T) {
+					t.NonTrivial()
+					c12GivenID = gid
+					defer func() { c12GivenID = "id-logout-request-given" }()
+					c12One(t, getSP, cf, msg, "rs", key)
+				})
+			}
+		}
+	}
 }
+
+// c12GivenID is the ID of the LogoutRequest that the logout responses of a case answer.
+var c12GivenID = "id-logout-request-given"
 
 // c12Held: every ordered pair of message kinds (and a-b-a triples) produced one after the other on one ServiceProvider with different relay
 // states and name IDs; each output is decoded and checked only after all exist, on exactly the value returned.
@@ -332,7 +366,7 @@ func c12OneHold(t *core.T, getSP func(c12Cfg) (*saml.ServiceProvider, string, st
 	if kind == "logoutreq" {
 		nameID = "n" + s // the string is exercised in both the relay state and the name ID
 	}
-	givenID := "id-logout-request-given"
+	givenID := c12GivenID
 	var u *url.URL
 	var page []byte
 	var err error
